@@ -91,9 +91,14 @@ type Serf struct {
 	queryResponse   map[LamportTime]*QueryResponse
 	queryLock       sync.RWMutex
 
-	logger     *log.Logger
-	joinLock   sync.Mutex
-	stateLock  sync.Mutex
+	logger    *log.Logger
+	joinLock  sync.Mutex
+	stateLock sync.Mutex
+
+	// leaveLock serializes the memberlist-level leave with the shutdown of the
+	// memberlist (memberlist panics if it is asked to leave after it has been
+	// shut down). It is always taken before the stateLock.
+	leaveLock  sync.Mutex
 	state      SerfState
 	shutdownCh chan struct{}
 
@@ -741,8 +746,15 @@ func (s *Serf) Leave() error {
 		}
 	}
 
-	// Attempt the memberlist leave
+	// Attempt the memberlist leave, unless a concurrent Shutdown already
+	// stopped the memberlist (it must not be asked to leave after that)
+	s.leaveLock.Lock()
+	if s.State() == SerfShutdown {
+		s.leaveLock.Unlock()
+		return nil
+	}
 	err := s.memberlist.Leave(s.config.BroadcastTimeout)
+	s.leaveLock.Unlock()
 	if err != nil {
 		s.logger.Printf("[WARN] serf: timeout waiting for leave broadcast: %s", err.Error())
 	}
@@ -860,6 +872,10 @@ func (s *Serf) forceLeave(node string, prune bool) error {
 //
 // It is safe to call this method multiple times.
 func (s *Serf) Shutdown() error {
+	// Do not stop the memberlist in the middle of a memberlist-level leave
+	s.leaveLock.Lock()
+	defer s.leaveLock.Unlock()
+
 	s.stateLock.Lock()
 	defer s.stateLock.Unlock()
 
